@@ -690,11 +690,59 @@ extend('C20', 'Round 7: flatten() writes headers with the BytesGenerator '
        'on every path; the header block is parsed with headersonly.')
 
 # rules added in round 8 (DESIGN.md §4 fifth table, §10 Round 8)
+extend('C01', 'Round 8: the id index of the timetable is updated with ids '
+       '(= Q12); Relay._attempt hands attempt() the queue\'s own envelope; '
+       'a Timeout scope around the relay call adds the Timeout exit to the '
+       'disposition analysis.')
+extend('C02', 'Round 8: the edge keeps the queue it was given (no stand-in '
+       'by truthiness); a relay failure never carries a positive peer reply '
+       '(= N18).')
+extend('C03', 'Round 8: set_recipients_delivered writes the marks on every '
+       'path, in every backend.')
+extend('C04', 'Round 8: the keep-awake reference of AioFile is given back '
+       'only where it was taken (exception edges included); no late-binding '
+       'closure is handed to a greenlet in the queue package.',
+       'acquire / release typestate over exception edges')
+extend('C06', 'Round 8: relay errors carry the reply they were given; the '
+       'relay client\'s MAIL / RCPT steps build no reply of their own.')
+extend('C07', 'Round 8: the close signal is caught by name only; the edge '
+       'session forgets its envelope where the server forgets the '
+       'transaction.')
+extend('C08', 'Round 8: an exception of the application\'s validator is '
+       'not swallowed; every attribute the receive path of IO writes is '
+       'reset at the TLS handshake.')
+extend('C09', 'Round 8: the DATA reader ends lines at a single byte '
+       '(= R5.5).')
+extend('C10', 'Round 8: the code group of the reply parser lies inside '
+       'Reply.code\'s pattern position by position; recv_reply leaves no '
+       'left-overs of a finished reply in IO.', 'regex syntax-tree inclusion')
 extend('C11', 'Round 8: MxRecord.get reaches its permanent "no records" '
        'verdict only after a lookup of its own returned, or with records '
-       'that are not expired.')
+       'that are not expired; peer replies become relay errors only under '
+       'is_error(); the LMTP relay reaches no stubbed client method; no '
+       'except-name is read after its clause.')
+extend('C12', 'Round 8: queued_ids is updated with ids only; the captured '
+       'entries are dispatched as captured (nothing is taken out of the '
+       'list in between); `del self.queued[:n]` is read as a timetable '
+       'write.')
+extend('C13', 'Round 8: the bounce quotes the reply it was given; '
+       'BytesFormat applies no rewriting operation to what it renders.')
+extend('C14', 'Round 8: one clock per pipe attempt (the timeout scope is '
+       'not inside the recipient loop).')
+extend('C15', 'Round 8: shared locks / semaphores are given back on every '
+       'way out; no generator yields from inside a Timeout block.',
+       'acquire / release typestate over exception edges')
+extend('C16', 'Round 8: Queue does not edit the recipients of an envelope '
+       'it was handed.')
 extend('C17', 'Round 8: recv_reply raises BadReply only where a pattern '
        'ending in LF has matched on the path (or in the decode arm): no '
        'verdict on the part of a line that has arrived so far; send_reply '
        'appends the terminator on every path before cutting the text into '
        'lines.')
+extend('C18', 'Round 8: the v1 line is cut at fixed offsets only where '
+       'both frame tests dominate the cut.')
+extend('C19', 'Round 8: nothing yields between the bound test of '
+       '_check_idle and pool.add() (table POOL_GROWTH_YIELDERS); requests '
+       'leave the pool queue through poll() only.')
+extend('C20', 'Round 8: what parse() stores as the body ends in a slice of '
+       'its input; no failing search (index / rindex) below parse().')
